@@ -39,7 +39,7 @@ pub fn run(args: &Args) -> Report {
     let covered = covered_sites();
     let probe_mode = args.rest.iter().any(|a| a == "--probe-sites");
     let mut site_seen: BTreeMap<String, (u32, u32)> = BTreeMap::new(); // site -> (corruptions, reported)
-    let nmods = if args.thorough { 400 } else { 40 };
+    let nmods = if args.thorough { 400 } else { 100 };
     for mi in 0..nmods {
         let mut gm = gen_module(&g, &mut rng, "", 2, [30, 60][mi % 2], true);
         gm.resolve_refs(&mut rng, 0);
@@ -143,7 +143,7 @@ pub fn run(args: &Args) -> Report {
         }
     }
     // 2b. modules with several dangling references at once: the report is exactly the dangling covered references
-    let ndang = if args.thorough { 300 } else { 40 };
+    let ndang = if args.thorough { 300 } else { 100 };
     for mi in 0..ndang {
         let mut gm = gen_module(&g, &mut rng, "", 2, 50, true);
         gm.resolve_refs(&mut rng, 15);
